@@ -9,10 +9,10 @@ func Gen(store string) func(t *rapid.T) *Case {
 		c := &Case{Store: store, ErrHandler: rapid.IntRange(0, 4).Draw(t, "eh") != 0, SetLater: rapid.IntRange(0, 3).Draw(t, "later") == 0,
 			Handlers: rapid.IntRange(1, 3).Draw(t, "handlers"), Async: rapid.Bool().Draw(t, "async"), UseCtx: rapid.Bool().Draw(t, "usectx"), Notify: rapid.IntRange(0, 2).Draw(t, "notify") == 0}
 		n := rapid.IntRange(1, 30).Draw(t, "n")
-		kinds := []string{"ok", "ok", "ok", "badchan", "badfunc", "badnan", "badmarshal", "reject", "reject", "timeout", "slowok", "dynok", "dynok", "dynbad", "dynbadmap", "dynreject"}
+		kinds := []string{"ok", "ok", "ok", "badchan", "badfunc", "badnan", "badmarshal", "reject", "reject", "timeout", "slowok", "lostack", "dynok", "dynok", "dynbad", "dynbadmap", "dynreject"}
 		failHeavy := rapid.Bool().Draw(t, "failHeavy")
 		if failHeavy {
-			kinds = []string{"ok", "badchan", "badnan", "badmarshal", "reject", "reject", "timeout", "slowok", "badfunc", "dynok", "dynbad", "dynbadmap", "dynreject"}
+			kinds = []string{"ok", "badchan", "badnan", "badmarshal", "reject", "reject", "timeout", "slowok", "lostack", "badfunc", "dynok", "dynbad", "dynbadmap", "dynreject"}
 		}
 		for i := 0; i < n; i++ {
 			c.Pubs = append(c.Pubs, Pub{Kind: rapid.SampledFrom(kinds).Draw(t, "kind")})
